@@ -3,7 +3,7 @@ import os, json, glob
 import ps, iterlib, oracle
 
 LEVEL = "proof"
-THEOREMS = ["C01_next_calls_spec", "C01_every_call_returns", "pg_primes_spec", "smallPrimes_ok", "primePi_ok", "C01_next_calls_model_kernel"]
+THEOREMS = ["C01_next_calls_spec", "C01_every_call_returns", "pg_primes_spec", "smallPrimes_ok", "primePi_ok", "C01_next_calls_model_kernel", "C01_bitValues_ok", "C01_nextPrime_variants_agree", "C01_decode_word_spec"]
 ASSUMPTIONS = [
     "erat_spec: the segmented sieve proper (Erat: presieve + EratSmall/Medium/Big cross-off + SievingPrimes) yields exactly the primes of [max(start,721), stop]; visible hypothesis of C01_next_calls_spec, exercised by the correspondence at all magnitudes, sieve sizes and both dispatch builds",
     "chunk-length heuristics, block layout, stop_hint: universally quantified",
@@ -140,6 +140,28 @@ def correspond(ctx, scale=1, variants=None, use_oracle=False):
                                        "failing_input": {"binding": b, "ops": ops, "op_index": bc[0], "expected": bc[1], "observed": bc[2]}})
                 elif len(samples) < 5:
                     samples.append({"binding": b, "ops": ops, "block_sizes": [r.count(" ") for _, r, _ in ex if r.startswith("b ")]})
+    # bit decoding unit level: Erat::nextPrime over the set bits of 64-bit words vs the model's loop (both variants)
+    words = [1, 1 << 63, (1 << 64) - 1, 0, 0x8000000000000001, 0xFF, 0xFF00000000000000, 0x5555555555555555, 0xAAAAAAAAAAAAAAAA]
+    for _ in range(150):
+        w = rng.below(1 << 64)
+        k = rng.below(4)
+        if k == 0: w &= rng.below(1 << 64) & rng.below(1 << 64)
+        if k == 1: w = 1 << rng.below(64)
+        if k == 2: w |= rng.below(1 << 64)
+        words.append(w)
+    lows = [0, 30, 30 * rng.below(1 << 50), ((1 << 64) - 1) // 30 * 30 - 240]
+    dcases = [(w, lows[i % len(lows)]) for i, w in enumerate(words)]
+    kp = ps.build_probe("kernel_probe"); model_exe = ps.build_model()
+    rc, o, e = ps.run([kp], input="".join("DECODE %d %d\n" % c for c in dcases), timeout=120)
+    rcm, om, em = ps.run([model_exe], input="".join("LEAF decode %d %d\n" % c for c in dcases), timeout=300)
+    dist["decode_words"] = len(dcases)
+    oi, omm = o.split("\n"), om.split("\n")
+    for idx, c in enumerate(dcases):
+        evaluations += 1
+        a_ = oi[idx].strip() if idx < len(oi) else "?"; b_ = omm[idx].strip() if idx < len(omm) else "?"
+        sigs.add(("decode", bin(c[0]).count("1") // 16))
+        if a_ != b_:
+            mismatches.append({"key": "decode", "what": "decoding the word %#x at base %d: Erat::nextPrime yields %s..., the model %s..." % (c[0], c[1], a_[:120], b_[:120]), "failing_input": None})
     return {"evaluations": evaluations, "distinct_nontrivial": len(sigs),
             "rule": "exhaustive starts 0..799 x 5 hint placements (cached-prime table, 719/721 hand-over); random forward histories (next, next-to-buffer-edge, jump_to) with sieve sizes %s; generate_next_primes block sequences at magnitudes up to 2^64 compared with an independent segmented sieve / Miller-Rabin. distinct = distinct (binding, build, transition kinds / sieve size, magnitude)" % SIEVE_SIZES,
             "samples": samples, "mismatches": sorted(mismatches, key=lambda m: 0 if m.get("failing_input") else 1)[:20], "distribution": dist, "variants": list(variants)}
